@@ -98,6 +98,7 @@ class Scheduler:
         self.change_points = set(self.params.get('change_points', ()))
         self.stall = self.params.get('stall')          # (thread_index, from_event, to_event)
         self.fair = self.params.get('fair', 400)
+        self._deadlock_for_grader = False
         self.starve = 0
 
     # ------------------------------------------------------------------ lifecycle
@@ -278,6 +279,10 @@ class Scheduler:
         if me is not None:
             me.gate.acquire()
             # running again: whoever released the gate has set self.current = me
+            if me.index == 0 and self._deadlock_for_grader:
+                self._deadlock_for_grader = False
+                me.state = 'runnable'
+                raise SimDeadlock('grader thread parked and nothing can wake it')
 
     # ------------------------------------------------------------------ yield point (every monitored event)
     def yield_point(self, kind, code, line):
@@ -353,8 +358,14 @@ class Scheduler:
             if me.index == 0:
                 me.state = 'runnable'
                 raise SimDeadlock('grader thread parked and nothing can wake it')
-            # a student thread blocked for ever with nobody to hand over to: cannot happen while the
-            # grader exists (it is always in some wait state or running)
+            # a student thread parks and nobody can run: the grader itself is waiting for ever (e.g. an untimed
+            # join on this very thread).  Wake the grader with the verdict instead of hanging the whole child.
+            g = self.threads[0]
+            if g is not me and g.state != 'done':
+                self._deadlock_for_grader = True
+                self.current = g
+                MONITOR.cur = 0
+                g.gate.release()
             me.gate.acquire()
             return
         if nxt is not me:
